@@ -216,6 +216,27 @@ def run(ck, prog, ctx):
         else:
             ck.ob("SELECT", "matrix/" + name, bool(hit_good) and not hit_bad, "Matrix::%s builds %s" % (name, ", ".join(c.rsplit("::", 2)[-2] + "::" + c.rsplit("::", 1)[-1] for c in (hit_bad or hit_good))), where=b.where())
 
+    # ------------------------------------------------------------------ SELECT: a best match is a maximum of the scores alone
+    # (`fold(0.0, f32::max)` lets the seed take part: every row / column maximum is clamped at the seed, wrong as soon as a similarity is negative)
+    for b_ in prog.production():
+        if not (b_.file or "").startswith(("src/similarity", "src/matrix")) or b_.kind not in ("Fn", "AssocFn", "Closure"):
+            continue
+        for bi_, t_ in b_.calls():
+            if t_.callee.method != "fold" or t_.callee.trait != "std::iter::Iterator" or len(t_.args) != 3:
+                continue
+            init_ = t_.args[1]
+            iv_ = init_.float_value() if init_.kind == "const" else None
+            if iv_ is None and init_.place is not None:
+                for k_, p_, d_ in pvn.defs(b_).get(init_.place.local, []):
+                    if k_ == "assign" and d_.rv["k"] == "use" and d_.rv["op"].kind == "const":
+                        iv_ = d_.rv["op"].float_value()
+            fn_ = None
+            if t_.args[2].kind == "const":
+                fn_ = t_.args[2].const.get("val", "")
+            cb_ = prog.bodies.get(pv.closure_of_operand(b_, t_.args[2]) or "")
+            is_max = bool(re.search(r"f(32|64)>?::max\b|::max$", fn_ or "")) or (cb_ is not None and cb_.kind == "Closure" and len(list(cb_.calls())) == 1 and any(ct.callee.method == "max" for _, ct in cb_.calls()))
+            if is_max and iv_ is not None and iv_ == iv_ and iv_ not in (float("-inf"),):
+                ck.ob("SELECT", "max-seed/%s" % b_.short, False, "%s takes a maximum with `fold(%s, max)`: the seed %s takes part in it, so the result is never below %s - a row / column whose scores are all smaller (negative similarities) gets the seed instead of its best match" % (b_.short, iv_, iv_, iv_), where=b_.where(t_.line))
     # ------------------------------------------------------------------ PARALLEL: side-by-side vectors (a cache kept as keys + values) stay aligned
     from engines import check_parallel_vectors
     ck.rule("PARALLEL", "two Vec fields of one struct that a method edits together are edited at the same position")
